@@ -247,6 +247,12 @@ func run(c *mon.Ctx) {
 				HasSub: r.Bool(), SubNum: byte(1 + r.Intn(2)), SubExp: byte(1 + r.Intn(2)),
 				Noise: r.Uint32() | 1,
 			}
+			if pi%5 == 4 || r.Chance(6) {
+				// segment numbers of 0 ("not segmented") and 255 are numbers like any other
+				a.SegNum, a.SegExp = r.PickByte([]byte{0, 0, 1, 255}), r.PickByte([]byte{0, 3, 255})
+				a.SubNum, a.SubExp = r.PickByte([]byte{0, 1}), r.PickByte([]byte{0, 2})
+				a.Type = r.PickByte([]byte{0x35, 0x37, 0x34, 0x36, 0x35})
+			}
 			if a.Type != 0x34 && a.Type != 0x36 {
 				a.HasSub = false // the encoder only carries sub-segment fields for these types
 			}
